@@ -29,7 +29,7 @@ for name, r in sorted(res.items()):
                          'how': 'tools/seedtest.py <seed dir>: scratch copy of /repo under /var/tmp, go test; then ./check from an isolated copy of /verif with VERIF_REPO pointing at the changed copy'}
     meta['checks_run'] = {p: {'exit': v['rc'], 'violations': v['violations'][:3]} for p, v in r.get('checks', {}).items()}
     det = [p for p, v in r.get('checks', {}).items() if v['rc'] == 1]
-    concrete = [p for p, v in r.get('checks', {}).items() if v['rc'] == 1 and not all('no-failing-input-found' in w or w == '' for w in v['violations'])]
+    concrete = [p for p, v in r.get('checks', {}).items() if v['rc'] == 1 and not all('no-failing-input-found' in w for w in v['violations'])]
     meta['detected_by'] = det
     meta['detected_with_concrete_input'] = concrete
     json.dump(meta, open(os.path.join(dst, 'meta.json'), 'w'), indent=1)
